@@ -77,6 +77,21 @@ func c37frame(e *h2env, kind string, i int) (raw []byte, sub string) {
 	return raw, sub
 }
 
+// c37class names the elicited control frame(s) of an event for violation signatures.
+func c37class(ev string) string {
+	switch ev {
+	case "ping":
+		return "ping-ack"
+	case "settings":
+		return "settings-ack"
+	case "rst0", "hdr":
+		return "rst"
+	case "wurst":
+		return "wu+rst"
+	}
+	return ev
+}
+
 func c37emax(kind string) int {
 	if kind == "mix" {
 		return 2
@@ -182,11 +197,11 @@ func c37flood(t *testing.T, r *vk.Run, id, kind string, p c37pattern, n int) {
 			if len(e.panics) > 0 {
 				return false
 			}
-			rd := reader
-			if !stalled {
-				rd = reader + "(reading)"
+			rd := "reading"
+			if stalled {
+				rd = "stalled"
 			}
-			bad := c37judge(r, id, kind, rd, limit, emax, o, func() string {
+			bad := c37judge(r, id, "flood:"+c37class(sub), rd, limit, emax, o, func() string {
 				return fmt.Sprintf("after flood frame #%d (%s) of kind %s, reader pattern %s, stalled=%v", sent, sub, kind, reader, stalled)
 			})
 			if o.closed {
@@ -217,7 +232,7 @@ func c37flood(t *testing.T, r *vk.Run, id, kind string, p c37pattern, n int) {
 				e.setStall(false)
 				stalled = false
 				o := c37observe(e)
-				c37judge(r, id, kind, reader+"(reading)", limit, emax, o, func() string {
+				c37judge(r, id, "flood:unstall", "reading", limit, emax, o, func() string {
 					return fmt.Sprintf("after %d flood frames of kind %s under stall (%d control frames were pending) and then reading everything", sent, kind, last.q)
 				})
 				if o.closed {
@@ -240,7 +255,9 @@ func c37flood(t *testing.T, r *vk.Run, id, kind string, p c37pattern, n int) {
 				e.setStall(false)
 				stalled = false
 				o := c37observe(e)
-				c37judge(r, id, kind, reader+"(reading)", limit, emax, o, func() string { return fmt.Sprintf("after reading the burst ending at frame #%d of kind %s", sent, kind) })
+				c37judge(r, id, "flood:unstall", "reading", limit, emax, o, func() string {
+					return fmt.Sprintf("after reading the burst ending at frame #%d of kind %s", sent, kind)
+				})
 				if o.closed {
 					closedAt = sent
 					break
@@ -343,7 +360,7 @@ func c37exec(t *testing.T, r *vk.Run, fam string, k, depth int, ch *vk.Chooser, 
 			}
 		}
 		var hist []string
-		dead := false
+		dead, violated := false, false
 		for d := 0; d < depth && !dead; d++ {
 			if h1.busy {
 				h1.poll()
@@ -392,14 +409,19 @@ func c37exec(t *testing.T, r *vk.Run, fam string, k, depth int, ch *vk.Chooser, 
 				rd = "stalled"
 			}
 			id := fam + "|trace:" + ch.TraceString()
-			c37judge(r, id, fam+":"+ev.name, rd, limit, emax, o, func() string { return fmt.Sprintf("family %s (preload limit-%d), after events %v", fam, k, hist) })
+			// signature: the event that crossed the line + reader state (not the family: the same
+			// root cause shows in every family); the execution ends at its first violation
+			if c37judge(r, id, "order:"+c37class(ev.name), rd, limit, emax, o, func() string { return fmt.Sprintf("family %s (preload limit-%d), after events %v", fam, k, hist) }) {
+				violated = true
+				r.Outcome("order:" + fam + ":violation")
+				break
+			}
 			if o.closed {
 				dead = true
 				r.Outcome(fmt.Sprintf("order:%s:closed:pending=limit%+d", fam, o.q-limit))
 			}
 		}
-		if !dead && len(e.panics) == 0 {
-			o := c37observe(e)
+		if o := c37observe(e); !dead && !violated && len(e.panics) == 0 {
 			switch {
 			case o.q == limit:
 				r.Outcome("order:" + fam + ":open:pending=limit")
@@ -433,10 +455,23 @@ func TestVerifC37(t *testing.T) {
 	// ---- part (a)
 	kinds := []string{"ping", "settings", "rst0", "wurst", "hdr", "mix"}
 	pats := []c37pattern{{"read", 0}, {"stall", 0}, {"stall", 1}, {"stall", limit - 1}, {"upto", 0}, {"bursts", 0}}
-	idx := 0
+	// vk.ExploreSharded hashes the first two choices of part (b) onto shards very unevenly for a
+	// 7-event alphabet and 16 shards (shards 7-9 get nothing, shard 0 the most): the 36 flood
+	// cases go to the shards that part (b) leaves idle. (Any assignment is a partition.)
+	var floodShard []int
+	for _, g := range []struct {
+		n  int
+		sh []int
+	}{{6, []int{7, 8, 9}}, {4, []int{6, 10}}, {3, []int{5, 11}}, {2, []int{4, 12}}} {
+		for i := 0; i < g.n; i++ {
+			floodShard = append(floodShard, g.sh...)
+		}
+	}
+	ncase := -1
 	for _, kind := range kinds {
 		for _, p := range pats {
-			idx++
+			ncase++
+			idx := floodShard[ncase%len(floodShard)]
 			n := limit + 2
 			switch p.name {
 			case "read":
@@ -474,8 +509,8 @@ func TestVerifC37(t *testing.T) {
 		depth int
 	}
 	fams := []fam{
-		{"pre3", 3, r.Pick(5, 7)},
-		{"pre1", 1, r.Pick(4, 6)},
+		{"pre3", 3, r.Pick(4, 6)},
+		{"pre1", 1, r.Pick(4, 5)},
 		{"fresh", -1, r.Pick(5, 7)},
 	}
 	for _, f := range fams {
